@@ -18,8 +18,9 @@ from . import paired_runs as pr
 from .common import enc, dec
 
 LANGS = ["c", "cpp", "py", "html"]
+PROC_CLASSES = ["siblings", "psUniqueName", "psMemo", "psTemplateCache", "psModelCache", "psCompileFold", "psSharedMutable"]
 FACTOR_CLASSES = {"process": ["random", "platform"], "clock": ["time"], "hashseed": ["hashOrder"], "cwd": ["absPath"],
-                  "location": ["absPath"]}
+                  "location": ["absPath"], "process-history": PROC_CLASSES}
 OPTSETS = {
     "c": [("default", []), ("asserts+pp", ["--enable-serialization-asserts", "--enable-override-variable-array-capacity",
                                           "--pp-max-emptylines", "2", "--pp-trim-trailing-whitespace"]),
@@ -94,6 +95,14 @@ def gen_namespace(rng, root: pathlib.Path, name: str, ntypes: int):
 
         if rng.random() < 0.5:
             lines.append(f"# Documentation of {short} <b>&amp;</b>")
+        hy = " ".join(["state-of-the-art-multi-part-hyphenated-phrase"] * rng.randint(3, 6))
+        r = rng.random()
+        if r < 0.25:
+            lines.append(f"# See https://example.org/{short.lower()}/some-hyphenated-page for details; {hy}")
+        elif r < 0.6:
+            lines.append(f"# {hy} — température °C, длина, 長さ.")
+            lines.append("#     indented continuation " + hy)
+        doc_field = (lambda: [f"# field doc {hy}" if rng.random() < 0.5 else f"# see ftp://example.net/{short}-x-y"] if rng.random() < 0.3 else [])
         if kind == "empty":
             lines.append("@sealed")
         elif kind == "union":
@@ -121,6 +130,7 @@ def gen_namespace(rng, root: pathlib.Path, name: str, ntypes: int):
             if rng.random() < 0.2:
                 lines.insert(0, "@deprecated")
             for k in range(rng.randint(1, 5)):
+                lines += doc_field()
                 lines.append(field(k))
                 if rng.random() < 0.2:
                     lines.append("void3"); bits += 3
@@ -188,7 +198,7 @@ class Model:
             why.append(f"{l['file']}:{l['line']} via {','.join(vias) or '?'}")
         if factor == "hashseed":
             # file order follows the hash-ordered set of nested namespaces; whatever depends on the order depends on the seed
-            for l in self.dirty(lang, kind, ["psModelCache", "psUniqueName", "siblings"]):
+            for l in self.dirty(lang, kind, ["psModelCache", "psUniqueName", "siblings", "psSharedMutable", "psCompileFold"]):
                 why.append(f"{l['file']}:{l['line']} processing order (hash-ordered nested namespaces) x {','.join(l['effective'])}")
         if factor == "hashseed" and limiter_on(lang, extra) and self.limiter_leak_possible(lang):
             # file order follows the hash-ordered set of nested namespaces; the limiter carries its counter along
@@ -317,6 +327,13 @@ def run(ctx: common.Ctx):
                 add("location", "location", locB, scratch / "cwd1", "0", T1)
                 add("location-rootname-ancestor", "location", locC, scratch / "cwd1", "0", T1)
                 add("location-symlink", "location", links[ii], scratch / "cwd1", "0", T1)
+                # the same run when it is NOT the first generation in its interpreter (another namespace was generated before it)
+                wi = (ii + 1) % len(inputs)
+                warm = inputs[wi]
+                wout = locA / f"warmup_{lang}_{oname.replace('+', '_')}"
+                wargv = ["--experimental-languages", "-l", lang, "-O", wout] + [x for lk in warm[2] for x in ("-I", lk)] + [warm[1]]
+                add("not-first-in-process", "process-history", locA, scratch / "cwd1", "0", T1)
+                jobs[-1]["runs"].insert(0, pr.make_run(wargv, wout, scratch / "cwd1"))
                 if not ctx.quick:
                     add("all", "all", locB, scratch / "cwd2" / "nested" / "dir", rnd_seed, T2, 1.0)
     ctx.extra["paired_jobs"] = len(jobs)
@@ -331,7 +348,7 @@ def run(ctx: common.Ctx):
         if isinstance(res, Exception) or isinstance(bres, Exception):
             ctx.broken.append({"kind": "paired-run-worker", "job": m["cfg"] + "|" + m["variant"], "error": str(res if isinstance(res, Exception) else bres)[:600]})
             continue
-        res, bres = res[0], bres[0]
+        res, bres = res[-1], bres[0]
         if bres["error"] is not None or res["error"] is not None:
             ctx.count("run_error_both" if (bres["error"] and res["error"]) else "run_error_one_side")
             if bool(bres["error"]) != bool(res["error"]):
